@@ -18,6 +18,13 @@ Theorem C15_cloexec_by_construction :
 Proof. exact cloexec_by_construction. Qed.
 Print Assumptions C15_cloexec_by_construction.
 
+(* The ring route of the asynchronous uv_fs_open (IORING_OP_OPENAT on the SQPOLL ring, no libc call)
+   is one of the operations the theorem above quantifies over ([OGive1 KRingOpen g]); spelled out:
+   its creation step carries O_CLOEXEC. *)
+Lemma C15_ring_open_cloexec : forall (m : mstate) (g : nat), all_cx (op_iou_open m g).
+Proof. exact ring_open_cx. Qed.
+Print Assumptions C15_ring_open_cloexec.
+
 (* Every close libuv performs targets a table entry it owns - for every program, oracle and
    initial table of the current code: every close goes through a descriptor field (EClose) or is
    a field reset that spares a stdio descriptor (EKeep), the entry hit is owned by libuv (loop,
